@@ -862,6 +862,7 @@ static void bfs_config (const cfg_t *c, int sas_limit, long state_cap, long audi
 /* ------------------------------------------------------------------ scenario executor (any n) */
 /* token grammar (comma separated):  D<e> | F | Sm<hex> | A<spec> | B<spec> | R<spec> | S<spec>
  *   A: DWS in ascending ESI order, B: descending, R: repairs (ascending) then sources (ascending), S: SAS
+ *   C / E / G: DWS in the order e = (a*i + 1) mod n, i = 0..n-1, with a = the first value >= 7 / 31 / n/2+1 coprime with n (scattered arrival)
  *   spec:  a-<e.e.e>   all except the listed ESIs (list may be empty)
  *          o<e.e.e>    only the listed ESIs
  *          w<a>+<w>    cyclic window [a, a+w) received
@@ -922,6 +923,14 @@ static void run_scenario (const char *ops)
 		if (tok[0] == 'F') op_fin (w);
 		else if (tok[0] == 'D') op_dws (w, atoi (tok + 1), 1);
 		else if (tok[0] == 'S') { if (parse_spec (tok + 1, mem)) op_sas (w, mem); }
+		else if (tok[0] == 'C' || tok[0] == 'E' || tok[0] == 'G') {
+			int a = tok[0] == 'C' ? 7 : tok[0] == 'E' ? 31 : G.n / 2 + 1, i2, cnt = 0, total = 0, x, y, t2;
+			if (!parse_spec (tok + 1, mem)) continue;
+			for (;; a++) { x = a; y = G.n; while (y) { t2 = x % y; x = y; y = t2; } if (x == 1) break; }
+			for (e = 0; e < G.n; e++) total += mem[e];
+			for (i2 = 0; i2 < G.n; i2++) { e = (int) (((long) a * i2 + 1) % G.n); if (mem[e]) { cnt++; op_dws (w, e, G.n <= 64 || cnt == total || cnt % 16 == 0); } }
+			vf_stat_add (st_trans, total > 0 ? total - 1 : 0);
+		}
 		else if (tok[0] == 'A' || tok[0] == 'B' || tok[0] == 'R') {
 			int cnt = 0, total = 0;
 			if (!parse_spec (tok + 1, mem)) continue;
@@ -1105,7 +1114,7 @@ static void build_large (int thorough, const char *which)
 			for (codec = 1; codec <= 2; codec++) {
 				int step = thorough ? 1 : (k > 40 ? 7 : 1), rstep = thorough ? 1 : ((n - k) > 40 ? 11 : 1);
 				c0 = NCF; add_cfg (codec, 8, k, n - k, 0, 0, 4, 0, 0, 0);
-				add_scen (c0, "Aa-,F"); add_scen (c0, "Sa-,F"); add_scen (c0, "Ba-");
+				add_scen (c0, "Aa-,F"); add_scen (c0, "Sa-,F"); add_scen (c0, "Ba-"); add_scen (c0, "Ca-,F"); add_scen (c0, "Ga-1,F");
 				/* the two extreme k-subsets */
 				add_scen (c0, "Aw0+%d,F", k); add_scen (c0, "Sw%d+%d,F", n - k, k); add_scen (c0, "Bw%d+%d", n - k, k);
 				add_scen (c0, "Sw0+%d,F", k - 1 > 0 ? k - 1 : 0);		/* k-1 symbols: must fail */
@@ -1138,22 +1147,23 @@ static void build_large (int thorough, const char *which)
 			}
 		}
 	if (strstr (which, "ldpc")) {
-		static const int kr[][2] = {{100, 50}, {1000, 500}, {40, 20}, {255, 64}, {1000, 10}, {700, 6}, {3000, 12}};	/* the last three: equations with more than 255 symbols */
+		static const int kr[][2] = {{100, 50}, {1000, 500}, {40, 20}, {255, 64}, {1000, 10}, {700, 6}, {3000, 12}, {200, 100}, {300, 40}};	/* the last three: equations with more than 255 symbols */
 		for (i = 0; i < (int) (sizeof kr / sizeof kr[0]); i++) {
 			int k = kr[i][0], r = kr[i][1], n = k + r, N1;
 			if (!thorough && k >= 1000 && r != 10) continue;
 			for (N1 = 3; N1 <= 5; N1++) {
 				int wl[6], wi, astep = thorough ? (n > 400 ? 7 : 1) : (n > 100 ? 17 : 5);
 				c0 = NCF; add_cfg (3, 0, k, r, N1, 1 + i, 4, 0, 0, 0);
-				add_scen (c0, "Aa-,F"); add_scen (c0, "Sa-,F"); add_scen (c0, "Ba-"); add_scen (c0, "Ra-,F");
+				add_scen (c0, "Aa-,F"); add_scen (c0, "Sa-,F"); add_scen (c0, "Ba-"); add_scen (c0, "Ra-,F"); add_scen (c0, "Ca-"); add_scen (c0, "Ea-,F"); add_scen (c0, "Ga-0,F");
 				wl[0] = k - 1; wl[1] = k; wl[2] = k + 1; wl[3] = (int) (1.05 * k + 0.999); wl[4] = (int) (1.1 * k + 0.999); wl[5] = (int) (1.2 * k + 0.999);
 				for (wi = 0; wi < 6; wi++)
 					for (a = 0; a < n; a += astep) {
 						add_scen (c0, "Sw%d+%d,F", a, wl[wi]);
 						add_scen (c0, "Bw%d+%d,F", a, wl[wi]);
+						add_scen (c0, "%cw%d+%d%s", "CEG"[(a + wi) % 3], a, wl[wi], (a & 1) ? ",F" : "");
 						if (thorough) add_scen (c0, "Rw%d+%d", a, wl[wi]);
 					}
-				for (b = 2; b <= 7; b++) { if (b == 6) continue; for (q = 0; q < b; q++) { add_scen (c0, "Sp%d.%d,F", b, q); add_scen (c0, "Bp%d.%d,F", b, q); add_scen (c0, "Rp%d.%d", b, q); } }
+				for (b = 2; b <= 7; b++) { if (b == 6) continue; for (q = 0; q < b; q++) { add_scen (c0, "Sp%d.%d,F", b, q); add_scen (c0, "Bp%d.%d,F", b, q); add_scen (c0, "Rp%d.%d", b, q); add_scen (c0, "Cp%d.%d,F", b, q); add_scen (c0, "Gp%d.%d", b, q); } }
 				{
 					int step = thorough ? (n > 400 ? 5 : 1) : (n > 100 ? 13 : 3);
 					for (a = 0; a < n; a += step) {
@@ -1169,7 +1179,7 @@ static void build_large (int thorough, const char *which)
 /* lens mode (C07): symbol lengths x alignments on a reduced list, scenario per (cfg,len,align) */
 static void build_lens (int thorough, const char *which)
 {
-	static const int lens[] = {1, 2, 3, 4, 5, 6, 7, 8, 9, 10, 11, 12, 13, 14, 15, 16, 17, 18, 19, 20, 21, 22, 23, 24, 25, 26, 27, 28, 29, 30, 31, 32, 33, 34, 35, 36, 37, 38, 39, 40, 63, 64, 65};
+	static const int lens[] = {1, 2, 3, 4, 5, 6, 7, 8, 9, 10, 11, 12, 13, 14, 15, 16, 17, 18, 19, 20, 21, 22, 23, 24, 25, 26, 27, 28, 29, 30, 31, 32, 33, 34, 35, 36, 37, 38, 39, 40, 63, 64, 65, 100, 127, 128, 129, 255, 256, 257, 1023, 1024, 1025, 1500};
 	static const int base[][6] = { /* codec m k r N1 seed */
 		{1, 8, 3, 2, 0, 0}, {1, 8, 5, 3, 0, 0}, {2, 8, 3, 2, 0, 0}, {2, 8, 4, 4, 0, 0}, {2, 4, 3, 2, 0, 0}, {2, 4, 7, 8, 0, 0},
 		{3, 0, 4, 4, 3, 1}, {3, 0, 6, 4, 4, 2}, {3, 0, 5, 5, 5, 1}, {3, 0, 8, 6, 3, 7},
@@ -1182,6 +1192,7 @@ static void build_lens (int thorough, const char *which)
 				int k = base[bi][2], r = base[bi][3], cb;
 				if (!strstr (which, base[bi][0] == 3 ? "ldpc" : "rs")) continue;
 				if (!thorough && (al & 1) && lens[li] > 20) continue;
+				if (lens[li] >= 100 && al > 1 && !(thorough && al == 5)) continue;	/* long symbols: alignments 0 and 1 (thorough: also 5) */
 				for (cb = 0; cb <= 1; cb++) {
 					c0 = NCF;
 					add_cfg (base[bi][0], base[bi][1], k, r, base[bi][4], base[bi][5], 0, al, cb, 0);
